@@ -220,7 +220,24 @@ def c32(t):
     return out.finish()
 
 
-PROPS = {"C32": c32, "C26": c26, "C35": c35, "C10": c10, "C29": c29, "C33": c33, "C34": c34, "C31": c31}
+def c25(t):
+    out = C.Outcome("C25", "model_checking", t, ["ordinals::Runestone::decipher (message + field decoding)", "runestone::message::Message::from_integers", "runestone::tag::Tag::take",
+                                                 "runestone::flag::Flag::take", "Edict::from_integers", "RuneId::{next,new}", "Etching::supply", "Runestone::integers", "varint::decode"])
+    out.assumptions = [E2_NOTE,
+        "E2 obligations: Runestone::payload and Runestone::integers are overridden by 'the payload decodes to the symbolic integers i0..iN-1' (N <= 4 quick, <= 6 thorough; every u128 value); std HashMap/VecDeque/Vec are modelled as lists in the path state with lookups by symbolic key forking on equality",
+        "the reference (harness/ordinals/runestone_h.rs: ref_message, ref_runestone) is written from docs/src/runes/specification.md over fixed arrays and is executed from its own MIR in the same engine; a counterexample is replayed natively by the cfg(vreplay) test vreplay_decipher (real decipher over a real script vs. the natively compiled reference)",
+        "the byte stage is decided separately: LEB128 decoding of payloads <= 6 bytes by the Kani harness c25_integers_vs_reference_le6 (and all of C26); script -> payload assembly (bitcoin's Instructions iterator) is decided only in the thorough tier by c25_only_op_return_op13_outputs_yield (3-byte scripts) - longer scripts do not finish under CBMC",
+        "NOT covered: encipher and the encipher->decipher round trip; messages longer than 6 integers"]
+    run_e2(out, "C25", t, timeout=7200)
+    f = "runestone_h.rs"
+    specs = [dict(h="c25_integers_vs_reference_le6", file=f, bounds="every payload of 0..=6 symbolic bytes; unwind 8", claim="Runestone::integers == sequential LEB128 reference (values and count), Err exactly on a bad varint")]
+    if t == "thorough":
+        specs.append(dict(h="c25_only_op_return_op13_outputs_yield", file=f, bounds="every script of 0..=3 symbolic bytes", claim="a payload is found iff the script starts with OP_RETURN OP_13"))
+    kprop.decide(out, "ordk", K.gen_ordinals, "t-ordk", specs, jobs=2, harness_timeout=1500)
+    return out.finish()
+
+
+PROPS = {"C25": c25, "C32": c32, "C26": c26, "C35": c35, "C10": c10, "C29": c29, "C33": c33, "C34": c34, "C31": c31}
 
 
 def main(pid, argv):
